@@ -173,6 +173,17 @@ func genRoots(fam []string, p int64) generator {
 		P := big.NewInt(p)
 		E := func(num, den *big.Int, d int) { emitRoot(emit, r, fam, num, den, d, thorough) }
 		EA := func(num, den *big.Int, d int) { emitRoot(emit, r, fam, num, den, d, true) }
+		// roots whose leading digits cross machine-word boundaries (2^31, 2^32, 2^53, 2^63, 2^64)
+		for _, w := range []uint{31, 32, 53, 63, 64} {
+			b := new(big.Int).Lsh(one, w)
+			for _, dlt := range []int64{-1, 0, 1} {
+				base := new(big.Int).Add(b, big.NewInt(dlt))
+				pwr := new(big.Int).Exp(base, P, nil)
+				for _, d2 := range []int64{-1, 0, 1} {
+					EA(new(big.Int).Add(pwr, big.NewInt(d2)), one, len(base.String())+25)
+				}
+			}
+		}
 		// several Numbers alive at once
 		np := 12
 		if thorough {
@@ -428,6 +439,13 @@ func genC13(tier string, r *Rng, emit func(Case)) {
 				new(big.Int).Exp(big.NewInt(5), big.NewInt(int64(r.Intn(30))), nil))
 		}
 		emitRoot(emit, r, fam, num, den, 70, thorough)
+	}
+	// dyadic rationals (exactly representable in binary floating point) with long exact expansions
+	for j := 1; j <= 64; j += r.Range(1, 3) {
+		for _, k := range []int64{1, 3, 5, 1023} {
+			emitRoot(emit, r, fam, big.NewInt(k), new(big.Int).Lsh(one, uint(j)), j+8, j%9 == 0 || thorough)
+		}
+		emitRoot(emit, r, fam, new(big.Int).Lsh(one, uint(j)), one, j/3+5, false)
 	}
 	// several rationals computed at the same time from different goroutines (Numbers share no mutable state)
 	nconc := 40
